@@ -66,9 +66,11 @@ CommentedLineIsInert == (last.cmd = "edit" /\ last.ok /\ last.ed.kind = "comment
 \* everything else is as before; as a drop-in the edit changes NOTHING - the drop-in cannot take away what another file still defines
 KeyOfD(T) == {t \in T : t[2] = <<100>>}
 DroppedKey == (last.cmd = "edit" /\ last.ok /\ last.ed.kind = "dropkey") =>
-   IF last.mode = "full" THEN /\ Show(fs).triples \ KeyOfD(Show(fs).triples) = Show(last.before).triples \ KeyOfD(Show(last.before).triples)
-                              /\ (Target("dropin") \notin DOMAIN last.before => KeyOfD(Show(fs).triples) = {})   \* an earlier drop-in edit holds a copy of d (found by TLC)
-   ELSE Show(fs).triples = Show(last.before).triples
+   /\ Show(fs).triples \ KeyOfD(Show(fs).triples) = Show(last.before).triples \ KeyOfD(Show(last.before).triples)
+   \* without an earlier drop-in edit (90_econftool.conf may hold its own copy of d - TLC found both histories: then --full
+   \* leaves that copy in force, and a drop-in edit removes the only definition)
+   /\ (Target("dropin") \notin DOMAIN last.before =>
+         IF last.mode = "full" THEN KeyOfD(Show(fs).triples) = {} ELSE KeyOfD(Show(fs).triples) = KeyOfD(Show(last.before).triples))
 \* a key appended in the editor is part of the configuration afterwards (nothing in these trees defines n or v)
 AppendedKeyIsShown == (last.cmd = "edit" /\ last.ok /\ last.ed.kind = "append") =>
    \E t \in Show(fs).triples : t[2] = SubSeq(last.ed.lines[1], 1, 1) /\ Len(t[3]) = Len(last.ed.lines)
